@@ -118,8 +118,16 @@ def run(rep, tier):
     m, init = repo.function("xdis.std._StdApi.__init__")
     nested = [n for n in ast.walk(init) if isinstance(n, ast.ClassDef) and n.name == "Bytecode"]
     if not nested:
-        raise AnalysisError("anchor vanished: class Bytecode nested in _StdApi.__init__")
-    ninit = [n for n in nested[0].body if isinstance(n, ast.FunctionDef) and n.name == "__init__"]
+        # the class handed out as self.Bytecode is not created per API object: one class object (and whatever table it reads) serves every API
+        bound = [ast.unparse(n.value) for n in ast.walk(init) if isinstance(n, ast.Assign) and any(ast.unparse(t) == "self.Bytecode" for t in n.targets)]
+        if not bound:
+            raise AnalysisError("anchor vanished: self.Bytecode is not assigned in _StdApi.__init__")
+        rep.ob("R2", "xdis.std._StdApi.__init__", "per-instance-Bytecode-class", False, expected="a Bytecode class created inside __init__ that closes over this API's opcode table",
+               derived="self.Bytecode = %s (not defined in __init__)" % bound[0],
+               msg="every API object shares the class %s: the opcode table it falls back to is common to all of them, so make_std_api(v) objects answer with one another's tables" % bound[0])
+        nested = None
+    ninit_src = nested[0].body if nested else []
+    ninit = [n for n in ninit_src if isinstance(n, ast.FunctionDef) and n.name == "__init__"]
     fallback = None
     if ninit:
         for n in ast.walk(ninit[0]):
@@ -127,7 +135,7 @@ def run(rep, tier):
                 for s_ in n.body:
                     if isinstance(s_, ast.Assign) and any(isinstance(t, ast.Name) and t.id == "opc" for t in s_.targets):
                         fallback = s_.value
-    if fallback is None:
+    if fallback is None and nested:
         # no fallback: opc must be passed explicitly by every caller in the module -- treated as vanished
         raise AnalysisError("anchor vanished: `if opc is None: opc = ...` in the nested Bytecode.__init__")
     # scope of the names in the fallback expression
@@ -142,8 +150,8 @@ def run(rep, tier):
                 if r is not None:
                     return r
         return None
-    tab = find(st, ["_StdApi", "__init__", "Bytecode", "__init__"])
-    names = [n.id for n in ast.walk(fallback) if isinstance(n, ast.Name)]
+    tab = find(st, ["_StdApi", "__init__", "Bytecode", "__init__"]) if nested else None
+    names = [n.id for n in ast.walk(fallback) if isinstance(n, ast.Name)] if fallback is not None else []
     kinds = {}
     for nm in names:
         try:
@@ -152,7 +160,8 @@ def run(rep, tier):
         except KeyError:
             kinds[nm] = "?"
     ok = bool(names) and all(k in ("free", "local") for k in kinds.values())
-    rep.ob("R2", "xdis.std._StdApi.__init__.Bytecode.__init__", "fallback-opc-is-the-instance-table", ok, expected="a variable of the enclosing _StdApi.__init__ (this API's table)",
+    if nested:
+        rep.ob("R2", "xdis.std._StdApi.__init__.Bytecode.__init__", "fallback-opc-is-the-instance-table", ok, expected="a variable of the enclosing _StdApi.__init__ (this API's table)",
            derived={"expr": ast.unparse(fallback), "name scopes": kinds}, where=repo.where(sm, fallback),
            msg="the nested Bytecode falls back to %s, a module-level object: make_std_api(v).Bytecode/get_instructions use the *default* API's opcode table" % ast.unparse(fallback))
     if ok:
